@@ -91,7 +91,11 @@ def ptypeOf (root : Json) (schema : Json) : Except String (PType × Bool) := do
   let s ← resolve root schema "schemas"
   let prim (s : Json) : PType :=
     match strField? s "type", strField? s "format" with
-    | some "string", some "date-time" => .time
+    | some "string", some "date-time" =>
+      -- a declared Go layout (x-goag-go-time-format) has its own lexical space: a measured leaf of its own
+      match strField? s "x-goag-go-time-format" with
+      | some l => .other ("time:" ++ l)
+      | none => .time
     | some "string", _ => .str
     | some "integer", some "int32" => .int32
     | some "integer", some "int64" => .int64
